@@ -37,6 +37,17 @@ func kvGen(t *rapid.T, prefix, label string) []prog.KV {
 	var kvs []prog.KV
 	for i := 0; i < nk; i++ {
 		k := prefix + rapid.SampledFrom(keyNames).Draw(t, label+"K")
+		if prefix == "X-Res-" && rapid.IntRange(0, 7).Draw(t, label+"Odd") == 0 {
+			// legal application keys that merely look like something else: a
+			// key that begins with unary Connect's trailer carrier prefix, …
+			pool := []string{"Tea", "Accept-Language", "Trailers"}
+			if label == "trl" {
+				// (only as a trailer: a response *header* with that prefix is
+				// what unary Connect reserves for carrying trailers)
+				pool = append(pool, "Trailer-Id", "Trailer-X-Res-A")
+			}
+			k = rapid.SampledFrom(pool).Draw(t, label+"OddK")
+		}
 		bin := rapid.IntRange(0, 3).Draw(t, label+"Bin") == 0
 		if bin {
 			k += "-Bin"
